@@ -71,6 +71,12 @@ RULES = {
            "into a freshly started interpreter (batched); outcomes and keys() of the copy = those of a fresh original for every "
            "dictionary; a further register() + evaluation on the copy works; the decorator form is a listed known finding; "
            "non-trivial = the graph contains a dataset",
+    "C18": "reflection: every concrete Evaluatable / Effect class defined under labrea.* must be known to the machinery (else exit 2) "
+           "and issue its four operations as requests; families combinators + caching: pass-through recording handlers for each of the "
+           "nine request types alone and all together leave evaluate / validate / keys / explain unchanged; the EvaluateRequest handler "
+           "observes the root and every node of the specification's Visit set (identity of the real objects); cache-exists, log and "
+           "type-validation requests are observed where datasets / options are evaluated; a substituting EvaluateRequest handler for one "
+           "dataset gives the same outcome as the real graph with that node replaced by the constant; non-trivial = composite graph",
     "C03": "same CASE export grouped by graph: keys() present-only; evaluate()/keys() on the dictionary restricted to keys() (the "
            "specification's Restrict) unchanged; for ALL pairs of dictionaries of a graph the fingerprints are equal iff reported "
            "keys and their values are equal (this enumerates every change/delete/add perturbation inside the universe); "
@@ -86,6 +92,8 @@ FAMILIES = {
         sharing=False,
         runs={"quick": [dict(mode="bfs", max_nodes=3), dict(mode="sim", max_nodes=5, min_nodes=4, num=16000, depth=16, procs=8)],
               "thorough": [dict(mode="bfs", max_nodes=4), dict(mode="sim", max_nodes=6, min_nodes=4, num=40000, depth=16, procs=12)]},
+        runs_light={"quick": [dict(mode="bfs", max_nodes=2), dict(mode="sim", max_nodes=5, min_nodes=3, num=8000, depth=16, procs=8)],
+                    "thorough": [dict(mode="bfs", max_nodes=3), dict(mode="sim", max_nodes=6, min_nodes=4, num=20000, depth=16, procs=12)]},
         shards=[["opt", "val", "pred", "fnapp"], ["apply"], ["bind"], ["switch"], ["case"], ["coalesce"], ["coll"], ["map"]],
         shard_defs={"apply": "SK_apply", "bind": "SK_bind", "switch": "SK_switch", "case": "SK_case",
                     "coalesce": "SK_coalesce", "coll": "SK_coll", "map": "SK_map", "opt": "SK_leafish"}),
